@@ -1,6 +1,8 @@
 // E2 harness for C19: suspend / resume of pools and processing units on the live runtime.
 // usage: e2_elastic <seed> <perturb_per_1024> <prog> <size> <wthreads> <policy> <elastic 0|1> [pika options...]
 //   prog: pu      - random suspend/resume of single PUs of an elastic pool (one PU is never suspended)
+//         race    - suspend of a PU answered by a resume the moment the PU reads `sleeping`, worker held in the
+//                   store(sleeping)/wait window (directed schedule for the lost-notify window)
 //                   from OS threads, tasks of the default pool and (with stealing) tasks of the pool
 //                   itself, concurrently with task submission with / without worker hints; all work
 //                   must complete BEFORE anything is resumed
@@ -60,6 +62,9 @@ static bool want_el(char const* s) { return s[0] == 'e' && s[1] == 'l' && s[2] =
 static std::map<void const*, std::pair<std::uint64_t, std::uint64_t>> g_qpool;    // queue -> (raw scheduler, worker)
 static std::map<std::pair<std::uint64_t, std::uint64_t>, std::uint64_t> g_spin;    // (scheduler, worker) -> fruitless iterations
 static std::atomic<bool> g_livelock{false};
+static void const* g_last_rload_obj = nullptr;
+static std::uint64_t g_last_rload_b = 0;
+static pthread_t g_last_rload_thr;
 static bool drop_rec(char const* site, void const* obj, std::uint64_t a, std::uint64_t b)
 {
     if (site[0] != 'e' || site[1] != 'l') return false;
@@ -70,6 +75,18 @@ static bool drop_rec(char const* site, void const* obj, std::uint64_t a, std::ui
         if (((b >> 8) & 1) == 0 && ++g_spin[{reinterpret_cast<std::uint64_t>(obj), a}] > 100000) g_livelock.store(true);
         return false;
     }
+    if (std::strcmp(site, "el.rload") == 0)
+    {
+        // resume_processing_unit_direct polling: a poll that sees `sleeping` again, by the same caller, with no
+        // other el.* record of that scheduler in between (in particular no further notify) is stutter: it is
+        // dropped so that a caller polling for ever does not count as progress for the hang detection below
+        bool rep = g_last_rload_obj == obj && g_last_rload_b == b && g_last_rload_thr == pthread_self() && (b & 0xff) == 8;
+        g_last_rload_obj = obj;
+        g_last_rload_b = b;
+        g_last_rload_thr = pthread_self();
+        return rep;
+    }
+    g_last_rload_obj = nullptr;
     if (std::strcmp(site, "el.qmap") == 0) g_qpool[obj] = {b, a & 0xffff};
     else if (std::strcmp(site, "el.inc") == 0 || std::strcmp(site, "el.dec") == 0)
     {
@@ -465,6 +482,55 @@ static int prog_refuse(rng& r, int size, bool elastic, bool stealing)
     return rc;
 }
 
+// directed schedule for the store(sleeping) / condition_variable::wait window of scheduler_base::suspend: the worker is held
+// at the POINT between the two (el.pt.sleep) while another OS thread, which does nothing but watch the state word, resumes
+// the PU the moment it is reported `sleeping`.  The notify of that resume arrives while the worker is not yet a waiter.
+static std::atomic<long> g_window_ns{0};
+static void on_point(char const* site, void const*, std::uint64_t, std::uint64_t)
+{
+    long ns = g_window_ns.load(std::memory_order_relaxed);
+    if (ns > 0 && std::strcmp(site, "el.pt.sleep") == 0)
+    {
+        struct timespec ts = {0, ns};
+        nanosleep(&ts, nullptr);
+    }
+}
+static int prog_race(rng& r, int size)
+{
+    int keep = int(r.below(std::uint32_t(g_n)));
+    g_window_ns.store(3000000);
+    int rc = 0;
+    for (int c = 0; c < 3 + size / 2 && rc == 0; ++c)
+    {
+        int w = int(r.below(std::uint32_t(g_n)));
+        if (w == keep) w = (w + 1) % g_n;
+        std::vector<std::thread> os;
+        run_on(0, os, [=] {
+            auto& st = g_wp->get_scheduler()->get_state(std::size_t(w));
+            while (st.load() != pika::runtime_state::sleeping) __builtin_ia32_pause();
+            if (api(op_resume_pu, w)) monitor("resume_processing_unit failed");
+        });
+        run_on(int(r.below(2)), os, [=] {
+            if (api(op_suspend_pu, w)) monitor("supported suspend_processing_unit failed");
+        });
+        for (int i = 0; i < 3; ++i) submit(r.next(), 1);
+        rc = wait_until([&] { return g_ctl_running.load() == 0; });
+        for (auto& t : os)
+            if (rc == 0) t.join();
+            else t.detach();
+        if (rc != 0) break;
+        rc = wait_until(all_done);
+    }
+    g_window_ns.store(0);
+    if (rc != 0) return rc;
+    // the worker may legitimately be asleep again only if a suspend came after the resume; here every suspend was answered
+    for (int w = 0; w < g_n; ++w)
+        if (api(op_resume_pu, w)) monitor("final resume_processing_unit failed");
+    if (active() != g_n) monitor("after resuming every PU only " + std::to_string(active()) + " are active");
+    for (int w = 0; w < g_n; ++w) submit(r.next(), 1);
+    return wait_until(all_done);
+}
+
 // the finding "low priority work depends on the last worker": the last worker is suspended, then a
 // low priority task is submitted; it must complete on the remaining workers (no resume)
 static int prog_lowprio(rng& r)
@@ -501,6 +567,7 @@ int main(int argc, char** argv)
     g_tasks = new std::vector<tinfo>(100000);
     e2::g_wanted_extra = &want_el;
     e2::g_drop = &drop_rec;
+    e2::g_on_point = &on_point;
     e2::install(seed, perturb);
 
     pika::resource::scheduling_policy pol = pika::resource::scheduling_policy::local_priority_fifo;
@@ -541,6 +608,7 @@ int main(int argc, char** argv)
     if (prog == "pu") rc = prog_pu(r, size, stealing);
     else if (prog == "pool") rc = prog_pool(r, size);
     else if (prog == "lowprio") rc = prog_lowprio(r);
+    else if (prog == "race") rc = prog_race(r, size);
     else rc = prog_refuse(r, size, elastic, stealing);
 
     if (rc == 0)
